@@ -394,7 +394,7 @@ class InventoryRenderer(ColumnRenderer):
     def positionsortkey(position):
         # Sort positions combining fields in a more intuitive way than the default.
         return (position.units.currency, -position.units.number,
-                (position.cost.currency, -position.cost.number, position.cost.date) if position.cost else ())
+                (position.cost.currency, -position.cost.number, position.cost.date or datetime.date.min) if position.cost else ())
 
     def format(self, value):
         # Expanded row format.
